@@ -15,7 +15,7 @@ THEOREMS = ["C08_header_iff", "C08_headerSize_spec", "C08_wf_invariant", "C08_st
             "C08_progress", "C08_reports_within_given", "C08_complete_sound_oneshot", "C08_complete_sound_oneshot_usingDict",
             "C08_chunking_sound", "C08_chunking_complete", "C08_chunking_reaches", "C08_chunking_independent",
             "C08_chunking_sound_usingDict", "C08_chunking_complete_usingDict", "C08_chunking_reaches_usingDict",
-            "C08_ddict_rides_along", "C08_tmpOut_in_bounds_partial", "C08_op_okb_sound", "C08_dict_is_history_refuted"]
+            "C08_ddict_rides_along", "C08_tmpOut_in_bounds", "C08_tmpOut_in_bounds_partial", "C08_op_okb_sound", "C08_dict_is_history_refuted"]
 CORRESPONDENCE = ["FrameD.decompress / decompress_usingDict model == LZ4F_decompress(_usingDict): per call (consumed, produced, dst bytes, return value / error code)",
                   "FrameDDict (dd_decompress / dd_decompress_usingDict / dd_getFrameInfo) == the real dctx after every call: dict (NULL / tmpOutBuffer+offset / caller address), dictSize, tmpOut-tmpOutBuffer, tmpOutSize, tmpOutStart; plus the model's memory operations of the call satisfy ops_okb",
                   "FrameD.getFrameInfo / headerSize model == LZ4F_getFrameInfo / LZ4F_headerSize (consumed, return value, reported fields)"]
@@ -31,7 +31,7 @@ RULE = ("frames built from parts in Python (header fields x raw/compressed/empty
         "distinct = distinct (bytes, chunking, capacity policy, options)")
 TRUSTED = ["hand-written model Model/FrameD.v of LZ4F_decompress & co, tied by the per-call comparison only",
            "block decoding inside the model is Spec.spec_decode (LZ4_decompress_safe_usingDict vs the spec is property C05); differences that stem only from it are classified (endcond: benign, offset 0: known finding F5)",
-           "dictionary relocation inside tmpOutBuffer (LZ4F_updateDict, lz4frame.c:1530-1595, decode destination 1889-1962, flushOut, 'preserve history' 2084-2114): Model/FrameD.v abstracts it to 'history = last 64KB of dictionary ++ output'; Model/FrameDDict.v keeps the concrete fields (dict as NULL / tmpOutBuffer+offset / caller address, dictSize, tmpOut offset, tmpOutSize, tmpOutStart) and is tied to the real dctx after EVERY LZ4F_decompress call (fields read through harness/c/framed_peek.c; real dst / dictionary addresses given to the model); the oracle also evaluates the bounds check ops_okb (C08_op_okb_sound) on the memory operations of every call. Proved: function-level bounds (C08_tmpOut_in_bounds_partial). NOT proved: that the stage machine meets the side conditions on every session (C08_tmpOut_in_bounds_full_statement), and that the last min(dictSize,64KB) bytes at dict are the history when a block is decoded (the literal statement about all dictSize bytes is refuted: C08_dict_is_history_refuted, replayed by the 'ddstale' cases); these two remain covered by the correspondence runs only",
+           "dictionary relocation inside tmpOutBuffer (LZ4F_updateDict, lz4frame.c:1530-1595, decode destination 1889-1962, flushOut, 'preserve history' 2084-2114): Model/FrameD.v abstracts it to 'history = last 64KB of dictionary ++ output'; Model/FrameDDict.v keeps the concrete fields (dict as NULL / tmpOutBuffer+offset / caller address, dictSize, tmpOut offset, tmpOutSize, tmpOutStart) and is tied to the real dctx after EVERY LZ4F_decompress call (fields read through harness/c/framed_peek.c; real dst / dictionary addresses given to the model); the oracle also evaluates the bounds check ops_okb (C08_op_okb_sound) on the memory operations of every call. Proved: function-level bounds (C08_tmpOut_in_bounds_partial) and their lift to every call of every API-conforming session (C08_tmpOut_in_bounds). NOT proved: that the last min(dictSize,64KB) bytes at dict are the history when a block is decoded (the literal statement about all dictSize bytes is refuted: C08_dict_is_history_refuted, replayed by the 'ddstale' cases); this remains covered by the correspondence runs only",
            "Model/FrameDDict.v: a tmpOutBuffer pointer never equals a caller pointer (the allocation is not adjacent to caller memory); on a decoding error the C code may already have moved tmpOut / trimmed the dictionary (the model leaves the bookkeeping untouched; contexts are not resumable after an error)",
            "XXH32 in the model is Spec.XXH32 (written from the xxHash specification)"]
 ASSUMPTIONS = ["malloc succeeds", "callers do not continue on a context after an error without LZ4F_resetDecompressionContext (documented contract)",
